@@ -19,12 +19,12 @@ compares the token after `#` with the directive names), entered with the cursor 
     instantiated on the caller's tokens.  Loop-free helpers are inlined, helpers that neither reach a diagnostic nor move a
     caller's cursor are cut (result unknown), recursion is cut.
 
-A site is a violation when, on EVERY explored path that reaches it with a token of the directive's sequence, that token is
-behind the directive's line.  (Cuts and summaries only add paths; a site that is reached with a token on the line on some path
+A site is (function of the call, message or record field, directive name the iteration matched).  A site is a violation when, on
+EVERY explored path that reaches it with a token of the directive's sequence, that token is behind the directive's line.  (Cuts and summaries only add paths; a site that is reached with a token on the line on some path
 is never reported.)"""
 import re, time
-from .interp import (Interp, Ctx, Obj, Sym, View, Cell, Arr, Unsupported, NoReturn, Infeasible, NeedChoice, ElemPlace, _Ref,
-                     NORETURN, _BUILTIN_MODELS, is_opaque, _Break, _Continue)
+from .interp import (Interp, Ctx, Obj, Sym, View, Arr, Unsupported, NoReturn, Infeasible, NeedChoice, ElemPlace, _Ref,
+                     NORETURN, _BUILTIN_MODELS, _Break, _Continue)
 from .build import AnalysisBroken
 from .lib_c18 import CutInterp
 
